@@ -168,10 +168,6 @@ int main(int argc, char** argv) {
     cif::run_plain("ppl_new_Generator", "ray-zero-vector",
                    [&] { g = 0; int r = ppl_new_Generator(&g, zle.h, PPL_GENERATOR_TYPE_RAY, two.h); if (r == 0 && g) ppl_delete_Generator(g); return r; },
                    [&] { Generator x = Generator::ray(cif::cxx((ppl_const_Linear_Expression_t) zle.h)); (void) x; return 0; });
-    ppl_Linear_Expression_t big = 0;
-    cif::run_plain("ppl_new_Linear_Expression_with_dimension", "max+1",
-                   [&] { big = 0; int r = ppl_new_Linear_Expression_with_dimension(&big, Linear_Expression::max_space_dimension() + 1); if (r == 0 && big) ppl_delete_Linear_Expression(big); return r; },
-                   [&] { Linear_Expression x; x.set_space_dimension(Linear_Expression::max_space_dimension() + 1); return 0; });
     cif::run_plain("ppl_Linear_Expression_add_to_coefficient", "var-max",
                    [&] { return ppl_Linear_Expression_add_to_coefficient(le.h, Linear_Expression::max_space_dimension() + 5, two.h); },
                    [&] { Linear_Expression x(cif::cxx((ppl_const_Linear_Expression_t) le.h)); x += Coefficient(2) * Variable(Linear_Expression::max_space_dimension() + 5); return 0; });
